@@ -75,6 +75,12 @@ def bpOf (j : Json) : R Bp := do
     | x => throw s!"bad bp {x}"
   | _ => throw "bad bp"
 
+def bpKindTo : Bp → Json
+  | .op _ => .arr #[.str "op"]
+  | .lbl => .arr #[.str "lbl"]
+  | .mstart len pm => .arr #[.str "ms", jNat len, pmapTo pm]
+  | .mend => .arr #[.str "me"]
+
 def macroInOf (j : Json) : R MacroIn := do
   let pd ← (← asArr (← fld j "pos_direct")).mapM posMarkOf
   let pmm ← (← asArr (← fld j "pos_macros")).mapM fun y => do
@@ -101,7 +107,7 @@ def handle (op : String) (j : Json) : R Json := do
     let wf := wfBlueprint c bp
     match build m c bp with
     | .ok (cs, c') => pure (Json.mkObj [("ok", .bool true), ("cmds", jList cmdTo cs), ("count", jNat c'), ("wf", .bool wf),
-        ("n_real", jNat (nReal bp))])
+        ("n_real", jNat (nReal bp)), ("out", jList bpKindTo (buildItems m bp))])
     | .error e => pure (Json.mkObj [("ok", .bool false), ("err", errTo e), ("wf", .bool wf)])
   | _ => throw s!"unknown op {op}"
 
